@@ -646,6 +646,7 @@ func TestReplay(t *testing.T) {
 	vt.Register(propString)
 	vt.Register(propParts)
 	vt.Register(propRoute)
+	vt.Register(propFirstUse)
 	vt.Replay(t)
 }
 
